@@ -14,12 +14,11 @@
 (*     -fno-access-control) exactly where the code left them.              *)
 (* The L1 invariants of Mono are evaluated on every state; ContentsStable  *)
 (* additionally consumes the canary verdict the driver logged (`intact`).  *)
-(* The page size comes from the environment (MONO_P), see the .cfg.        *)
+(* The page size of an execution comes with its reset line.                *)
 (***************************************************************************)
 EXTENDS Mono, Json, IOUtils
 
 Tr == ndJsonDeserialize(IOEnv.TRACE)
-TraceP == atoi(IOEnv.MONO_P)
 
 VARIABLES l,        \* next line to explain
           seen      \* canaries as observed by the driver
@@ -29,8 +28,8 @@ tvars == <<vars, l, seen>>
 TInit ==
   /\ l = 2
   /\ seen = TRUE
-  /\ Tr[1].k = "reset" /\ Tr[1].P = P
-  /\ Init
+  /\ Tr[1].k = "reset"
+  /\ Init(Tr[1].P)
   /\ TLCSet(1, 1)
   /\ TLCSet(2, {})
 
@@ -84,7 +83,8 @@ End ==
   /\ UNCHANGED <<vars, seen>>
 
 Reset ==
-  /\ l <= Len(Tr) /\ Tr[l].k = "reset" /\ Tr[l].P = P
+  /\ l <= Len(Tr) /\ Tr[l].k = "reset"
+  /\ P' = Tr[l].P
   /\ pas' = <<>> /\ oas' = <<>> /\ das' = <<>>
   /\ fb' = 0 /\ fe' = 0 /\ used' = 0 /\ alloc' = 0 /\ up' = "rec" /\ nd' = 0
   /\ blocks' = {} /\ intact' = TRUE
